@@ -178,13 +178,14 @@ def make_strike_case(rng, wrap=False):
     else:
         params["maxPacketLifeTime"] = rng.choice([1, 100])
     w.apply(["create", n, params])
-    if rng.random() < 0.4:
+    if rng.random() < 0.65:
         w.apply(["create", n, dict(label="rel", ordered=True)])
     w.heal(600)
     for _round in range(rng.randrange(1, 4)):
         w.salt += 1
         w.apply(["send", n, 0, rng.choice("sb"), rng.choice([5000, 9000, 20000, 70000]), w.salt])
-        if len(w.ep[n].channels) > 1 and rng.random() < 0.5:
+        if len(w.ep[n].channels) > 1 and rng.random() < 0.7:
+            # a reliable message right behind the burst: it waits in the data channel queue while the burst is in flight
             w.salt += 1
             w.apply(["send", n, 1, "b", rng.choice([10, 3000]), w.salt])
         while w.ep[n].tasks:
